@@ -110,6 +110,8 @@ package pilosa
 // ---- C20: replica sets -------------------------------------------------------------
 
 //@ uf hashOf(h int, key int, n int) int
+// ringPos(h, k, n): the ring position k steps after h on a ring of n nodes.
+//@ rec ringPos(h int, k int, n int) int = (h + k) % n
 //@ contract (Hasher).Hash trusted pure props C20
 //@   requires n >= 1
 //@   ensures result == hashOf(self, key, n) && 0 <= result && result < n
@@ -117,13 +119,13 @@ package pilosa
 // partitionNodes: min(max(ReplicaN,1), len(nodes)) distinct ring positions
 // starting at the hashed node index.
 //@ contract (*cluster).partitionNodes props C20
-//@   requires c != nil && c.Hasher != nil && len(c.nodes) >= 1 && len(c.nodes) <= 1000000 && c.ReplicaN >= 0
+//@   requires c != nil && c.Hasher != nil && len(c.nodes) >= 1 && len(c.nodes) <= 1000000 && c.ReplicaN >= 0 && partitionID >= 0
 //@   ensures len(result) == min(max(c.ReplicaN, 1), len(c.nodes))
-//@   ensures forall i :: 0 <= i && i < len(result) ==> result[i] == c.nodes[(hashOf(c.Hasher, partitionID, len(c.nodes)) + i) % len(c.nodes)]
+//@   ensures forall i :: 0 <= i && i < len(result) ==> result[i] == c.nodes[ringPos(hashOf(c.Hasher, partitionID, len(c.nodes)), i, len(c.nodes))]
 //@   ensures fresh(result)
 //@   modifies nothing
 //@   loop 1 invariant 0 <= i && i <= replicaN && len(nodes) == replicaN && fresh(nodes) && nodes.off == 0 && 0 <= nodeIndex && nodeIndex < len(c.nodes) && replicaN == min(max(c.ReplicaN, 1), len(c.nodes))
-//@   loop 1 invariant forall k :: 0 <= k && k < i ==> nodes[k] == c.nodes[(nodeIndex + k) % len(c.nodes)]
+//@   loop 1 invariant forall k :: 0 <= k && k < i ==> nodes[k] == c.nodes[ringPos(nodeIndex, k, len(c.nodes))]
 //@   loop 1 decreases replicaN - i
 
 // Ownership tests agree with the owner list: hashing is modelled by uninterpreted
@@ -142,7 +144,7 @@ package pilosa
 //@ contract (*cluster).shardNodes props C20
 //@   requires clusterOK(c)
 //@   ensures len(result) == replicasOf(c) && fresh(result)
-//@   ensures forall i :: 0 <= i && i < len(result) ==> result[i] == c.nodes[(hashOf(c.Hasher, partitionOf(index, shard, c.partitionN), len(c.nodes)) + i) % len(c.nodes)]
+//@   ensures forall i :: 0 <= i && i < len(result) ==> result[i] == c.nodes[ringPos(hashOf(c.Hasher, partitionOf(index, shard, c.partitionN), len(c.nodes)), i, len(c.nodes))]
 //@   modifies nothing
 
 //@ contract (Nodes).ContainsID props C20
@@ -156,7 +158,7 @@ package pilosa
 // some ring position h+k, k < replicasOf(c), holds a node with that ID.
 //@ contract (*cluster).ownsShard props C20
 //@   requires clusterOK(c)
-//@   ensures result <==> (exists k :: 0 <= k && k < replicasOf(c) && c.nodes[(hashOf(c.Hasher, partitionOf(index, shard, c.partitionN), len(c.nodes)) + k) % len(c.nodes)].ID == nodeID)
+//@   ensures result <==> (exists k :: 0 <= k && k < replicasOf(c) && c.nodes[ringPos(hashOf(c.Hasher, partitionOf(index, shard, c.partitionN), len(c.nodes)), k, len(c.nodes))].ID == nodeID)
 
 // The ring is kept ordered by node ID, so it is a function of the member set.
 //@ spec nodesSorted(a []*Node) = (forall i :: 0 <= i && i < len(a) ==> a[i] != nil) && (forall i, j :: 0 <= i && i < j && j < len(a) ==> strlt(a[i].ID, a[j].ID))
@@ -174,7 +176,7 @@ package pilosa
 //@   ensures result ==> len(c.nodes) == old(len(c.nodes)) - 1
 //@   ensures !result ==> len(c.nodes) == old(len(c.nodes))
 //@   ensures forall i :: 0 <= i && i < len(c.nodes) ==> c.nodes[i].ID != nodeID
-//@   ensures forall j :: 0 <= j && j < old(len(c.nodes)) && old(c.nodes[j]).ID != nodeID ==> (exists i :: 0 <= i && i < len(c.nodes) && c.nodes[i] == old(c.nodes[j]))
+//@   ensures forall j :: 0 <= j && j < old(len(c.nodes)) && old(c.nodes[j]).ID != nodeID ==> ((j < len(c.nodes) && c.nodes[j] == old(c.nodes[j])) || (j >= 1 && c.nodes[j-1] == old(c.nodes[j])))
 
 // ---- C15 / C03: row segments ---------------------------------------------------------
 //@ byref rowSegment AttrBlock
@@ -198,7 +200,7 @@ package pilosa
 // ---- C25: attribute block diff ------------------------------------------------------
 
 //@ spec sortedBlocks(a []AttrBlock) = forall i, j :: 0 <= i && i < j && j < len(a) ==> a[i].ID < a[j].ID
-//@ spec sameSum(x []byte, y []byte) = len(x) == len(y) && (forall i :: 0 <= i && i < len(x) ==> x[i] == y[i])
+//@ spec sameSum(x []byte, y []byte) = bytesEq(x, y)
 // differs(a,i,other): block a[i] is absent from other or present with another checksum
 //@ spec differs(a []AttrBlock, i int, other []AttrBlock) = forall j :: 0 <= j && j < len(other) && other[j].ID == a[i].ID ==> !sameSum(a[i].Checksum, other[j].Checksum)
 
@@ -210,7 +212,7 @@ package pilosa
 //@   ensures forall i :: 0 <= i && i < len(a) && differs(a, i, other) ==> (exists k :: 0 <= k && k < len(result) && result[k] == a[i].ID)
 //@   ensures forall k, l :: 0 <= k && k < l && l < len(result) ==> result[k] < result[l]
 //@   loop 1 invariant a.ref == a_0.ref && a.off + len(a) == a_0.off + len(a_0) && a.off >= a_0.off && other.ref == other_0.ref && other.off + len(other) == other_0.off + len(other_0) && other.off >= other_0.off
-//@   loop 1 invariant unchanged(a_0) && unchanged(other_0) && (len(ids) == 0 || fresh(ids))
+//@   loop 1 invariant unchanged(a_0) && unchanged(other_0) && (cap(ids) == 0 || fresh(ids))
 //@   loop 1 invariant forall k, l :: 0 <= k && k < l && l < len(ids) ==> ids[k] < ids[l]
 //@   loop 1 invariant forall k :: 0 <= k && k < len(ids) ==> (len(a) > 0 ==> ids[k] < a[0].ID)
 //@   loop 1 invariant forall k :: 0 <= k && k < len(ids) ==> (exists i :: 0 <= i && i < len(a_0) - len(a) && a_0[i].ID == ids[k] && differs(a_0, i, other_0))
@@ -259,7 +261,7 @@ package pilosa
 //@ spec fragOK(f *fragment) = f != nil && f.storage != nil && f.cache != nil && f.rowCache != nil && f.shard <= 17592186044415
 
 //@ contract (*fragment).unprotectedSetBit props C07,C10,C12,C16,C28
-//@   requires fragOK(f) && rowID <= 17592186044415
+//@   requires fragOK(f) && rowID < 17592186044415
 //@   ensures err == nil ==> f.storage.$set[bitPos(rowID, columnID)] && (changed <==> !old(f.storage.$set[bitPos(rowID, columnID)]))
 //@   ensures err == nil ==> (forall x :: x != bitPos(rowID, columnID) ==> (f.storage.$set[x] <==> old(f.storage.$set[x])))
 //@   ensures err != nil ==> !changed && (forall x :: f.storage.$set[x] <==> old(f.storage.$set[x]))
@@ -270,7 +272,7 @@ package pilosa
 //@   ensures !changed ==> f.checksums == old(f.checksums) && f.maxRowID == old(f.maxRowID)
 
 //@ contract (*fragment).unprotectedClearBit props C07,C10,C12,C28
-//@   requires fragOK(f) && rowID <= 17592186044415
+//@   requires fragOK(f) && rowID < 17592186044415
 //@   ensures err == nil ==> !f.storage.$set[bitPos(rowID, columnID)] && (changed <==> old(f.storage.$set[bitPos(rowID, columnID)]))
 //@   ensures err == nil ==> (forall x :: x != bitPos(rowID, columnID) ==> (f.storage.$set[x] <==> old(f.storage.$set[x])))
 //@   ensures err != nil ==> !changed && (forall x :: f.storage.$set[x] <==> old(f.storage.$set[x]))
